@@ -100,6 +100,9 @@ class Client(object):
         :rtype: True or False
 
         """
+        if self.io.recv_buffer:
+            # Already read from the socket along with an earlier reply.
+            return True
         sock_fd = self.io.socket.fileno()
         if sock_fd < 0:
             return False
